@@ -256,8 +256,9 @@ theorem exposure_entries_realizable (x : XEngine) (ha : x.eng.anps = []) (hb : x
           (entrySpec_sound x.eng pod hpod.1 ns i _ _ c hs hF q nsl hsat hcons pr p hden)
 
 /-- The same for the engine `Exposure.build` returns, when the selectors of the input have label
-syntax (`SelectorsOK`: keys and values hold none of the characters space, `=`, `!`, `,`, `(`, `)`,
-and `NotIn` requirements have a value): the hypothesis `Faithful` is then a theorem
+syntax. `SelectorsOK e` (decidable) excludes exactly: a selector key or value, or a policy
+namespace name, that holds one of the characters space `=` `!` `,` `(` `)` `;` `|`; an empty selector
+key; a `NotIn` requirement without values. The hypothesis `Faithful` is then a theorem
 (`Netpol.Proofs.SelectorStrings`: selectors with the same requirement strings select the same label
 sets), and so are the hypotheses on the shape of the engine. -/
 theorem exposure_entries_realizable_build (objs : List Obj) (x : XEngine)
@@ -394,7 +395,7 @@ def repProd : Pod :=
 `#eval`: the two representative peers, in this order, under these keys) -/
 def ex : XEngine :=
   { eng := { namespaces := [nsDefault], pods := [web, other], netpols := [np], exposure := true },
-    reps := [("kubernetes.io/metadata.name=default/app=client", repClient), ("env=prod/", repProd)] }
+    reps := [("kubernetes.io/metadata.name=default|app=client", repClient), ("env=prod|", repProd)] }
 
 /-- `ex` is what `Exposure.build` returns for the namespace, the two pods and the policy -/
 def exObjs : List Obj := [.ns nsDefault, .pod web, .pod other, .np np]
@@ -402,11 +403,10 @@ def exObjs : List Obj := [.ns nsDefault, .pod web, .pod other, .np np]
 theorem allSels_np : allSels np = [⟨some selClient, none⟩, ⟨none, some selProd⟩] := by rfl
 
 theorem key1 : keyOf "default" ⟨some selClient, none⟩ =
-    "kubernetes.io/metadata.name=default/app=client" := by
-  simp [keyOf, nsOf, uniqueKey, nsNameSelector, Selector.reqStrings, selClient, nsNameLabelKey,
-    String.join]
-theorem key2 : keyOf "default" ⟨none, some selProd⟩ = "env=prod/" := by
-  simp [keyOf, nsOf, uniqueKey, Selector.reqStrings, selProd, String.join]
+    "kubernetes.io/metadata.name=default|app=client" := by
+  simp [keyOf, nsOf, uniqueKey, nsNameSelector, Selector.reqStrings, selClient, nsNameLabelKey]
+theorem key2 : keyOf "default" ⟨none, some selProd⟩ = "env=prod|" := by
+  simp [keyOf, nsOf, uniqueKey, Selector.reqStrings, selProd]
 
 theorem build_ex : Exposure.build exObjs = .ok ex := by
   rw [build_eq]
@@ -478,7 +478,10 @@ example : ∃ ps, exPlain.peersList = .ok ps ∧ (∀ p ∈ ps, p.Real) ∧ NpVa
     cases h : exPlain.peersList with
     | error err =>
       exfalso
-      have : (match exPlain.podOwnersMap with | .ok _ => true | .error _ => false) = true := by decide
+      have hom : exPlain.podOwnersMap = podOwnersMapOf [other, web] :=
+        Structure.podOwnersMap_eq (l := [other, web]) (List.Perm.swap web other []) (by decide)
+      have : (match exPlain.podOwnersMap with | .ok _ => true | .error _ => false) = true := by
+        rw [hom]; decide
       unfold Engine.peersList at h
       cases ho : exPlain.podOwnersMap with
       | error e' => rw [ho] at this; cases this
@@ -509,6 +512,15 @@ example : NpValid engDev := by decide
 example : engDev.peerConns (.pod web (some nsDefault)) (.ip [⟨167772160, 184549375⟩]) =
       .error .namedPortOnIP ∧
     Exposure.peerConns engDev (.pod web (some nsDefault)) (.ip [⟨167772160, 184549375⟩]) =
+      .ok (ConnSet.mk' true) := by decide
+
+/-- the same with the rules in the other order: the plain analysis examines every rule (no early
+stop at "All Connections"), so it fails here too; the exposure shortcut still answers -/
+def engDev' : Engine :=
+  { engDev with netpols := [{ npDev with egress := [⟨[], []⟩, ⟨[.ip ⟨0x0A000000, 8⟩ []], [⟨none, .name "dns"⟩]⟩] }] }
+example : engDev'.peerConns (.pod web (some nsDefault)) (.ip [⟨167772160, 184549375⟩]) =
+      .error .namedPortOnIP ∧
+    Exposure.peerConns engDev' (.pod web (some nsDefault)) (.ip [⟨167772160, 184549375⟩]) =
       .ok (ConnSet.mk' true) := by decide
 
 /-! Finding (why the theorems ask for `pod.name ≠ representativePodName`): `isPodToItself` compares
